@@ -28,7 +28,8 @@ from .. import narrow_bool as nb
 from .. import narrow_corr9 as ncorr9
 
 PID = "C09"
-PROOF_FILES = ["theories/Props/C09.v", "theories/Proofs/Nesterov.v", "theories/Model/Nesterov.v", "theories/Model/NesterovLoop.v",
+PROOF_FILES = ["theories/Props/C09.v", "theories/Proofs/Nesterov.v", "theories/Proofs/NesterovLoop.v", "theories/Model/Nesterov.v",
+               "theories/Model/NesterovLoop.v",
                "theories/Checker/NarrowB.v", "theories/Checker/Narrow.v", "theories/Checker/Shapes.v"]
 TAU_K = 1e-3
 ENC_K = 1e-5
